@@ -3,6 +3,9 @@ package rules
 import (
 	"strings"
 
+	ssa "xvc/xssa"
+
+	"xvc/load"
 	"xvc/q"
 )
 
@@ -15,6 +18,30 @@ func init() {
 }
 
 func c04(c *q.Ctx) {
+	// who may delete a height-index row: only the removal of blocks (Truncate). Saving an off-trunk header must not
+	// touch the row of its height - the row belongs to the TRUNK block of that height, which a side-branch block of
+	// the same height does not replace
+	nDel := 0
+	for _, fn := range c.P.AllFns {
+		for _, ci := range q.CallsIn(fn, "Batch.Delete") {
+			args := ci.Common().Args
+			if len(args) == 0 || !strings.HasPrefix(q.Canon(args[0]), "append(\"ZH\"") {
+				continue
+			}
+			nDel++
+			c.Sites++
+			top := load.QualName(q.Top(fn))
+			if top == "bcs/ledger/xledger/ledger::(*Ledger).removeBlocks" {
+				c.OK("K3", top, "may delete a height-index row", c.At(ci), "rows of removed trunk blocks")
+			} else {
+				c.Fail("K3", top, "may delete a height-index row", c.At(ci), "not in the frozen who-may table: the row of a height is owned by the trunk block of that height")
+			}
+		}
+	}
+	c.Floor("K3", "bcs/ledger/xledger/ledger::(*Ledger).removeBlocks", "height-index deletions", nDel, 1)
+	k9 := ledgerK9(c)
+	k9.Operation("bcs/ledger/xledger/ledger::(*Ledger).ConfirmBlock", nil)
+	k9.Operation("bcs/ledger/xledger/ledger::(*Ledger).Truncate", nil)
 	const led = "bcs/ledger/xledger/ledger::"
 	succ := q.ToFieldStoreVal("ConfirmStatus.Succ", "true")
 	cb := c.Fn(led + "(*Ledger).ConfirmBlock")
@@ -56,12 +83,7 @@ func c04(c *q.Ctx) {
 		c.Effect(cb, q.Eff{Spec: "Ledger.saveBlock", Arg: 0, Glob: pre, Req: []q.Cond{tipExt}, Why: "the parent's NextHash edit is persisted", Rule: "K6"})
 		c.FieldStore(cb, "InternalBlock.NextHash", pre, "p1.Blockid", "parent links to the new tip")
 		// duplicate transaction / remap
-		old := "phi{local<InternalBlock>|newmap<map[string]*InternalBlock>[local<Transaction>.Blockid]}"
-		dup1 := q.Cond{Canon: old + ".InTrunk", Sense: true}
-		dup2 := q.Cond{Canon: "p1.InTrunk", Sense: true}
-		dup3 := q.Cond{Canon: "(phi{ledger.(*Ledger).handleFork(*)#0.Height|proto.Clone(p0.meta).TrunkHeight} < " + old + ".Height)", Sense: false}
-		c.Effect(cb, q.Eff{Spec: "Ledger.handleFork", Arg: 0, Glob: "*", Why: "anchor", Rule: "K6"})
-		c.FieldStoreUnder(cb, "ConfirmStatus.Error", "g:ErrTxDuplicated", []q.Cond{dup1, dup2, dup3}, "a transaction already in a trunk block at or below the split height rejects the block (three conjuncts)")
+		dupTxDecision(c, cb)
 		keepTx := func(g q.Cond) bool {
 			return strings.Contains(g.Canon, "InTrunk") || (strings.Contains(g.Canon, ".Height") && strings.Contains(g.Canon, " < "))
 		}
@@ -169,4 +191,17 @@ func blockCacheCoherent(c *q.Ctx) {
 	if tr := c.Fn(led + "(*Ledger).Truncate"); tr != nil {
 		c.Effect(tr, q.Eff{Spec: "LRUCache.Del", Arg: -2, Glob: "p0.blockCache", Why: "the new tip, whose header is rewritten by the truncation, is dropped from the full-block cache", Rule: "K9"})
 	}
+}
+
+// dupTxDecision (C04, C03): a block is refused for carrying a known transaction exactly when that transaction sits in
+// a trunk block at or below the height where the new block's branch leaves the trunk - the fork point after a trunk
+// switch, the trunk height otherwise. Judged against the OLD trunk height, a reorganisation that re-includes a
+// transaction of the abandoned branch (whose inputs are current again) is refused and the node stays on the short fork.
+func dupTxDecision(c *q.Ctx, cb *ssa.Function) {
+		old := "phi{local<InternalBlock>|newmap<map[string]*InternalBlock>[local<Transaction>.Blockid]}"
+		dup1 := q.Cond{Canon: old + ".InTrunk", Sense: true}
+		dup2 := q.Cond{Canon: "p1.InTrunk", Sense: true}
+		dup3 := q.Cond{Canon: "(phi{ledger.(*Ledger).handleFork(*)#0.Height|proto.Clone(p0.meta).TrunkHeight} < " + old + ".Height)", Sense: false}
+		c.Effect(cb, q.Eff{Spec: "Ledger.handleFork", Arg: 0, Glob: "*", Why: "anchor", Rule: "K6"})
+		c.FieldStoreUnder(cb, "ConfirmStatus.Error", "g:ErrTxDuplicated", []q.Cond{dup1, dup2, dup3}, "a transaction already in a trunk block at or below the split height rejects the block (three conjuncts)")
 }
